@@ -25,6 +25,11 @@ TYPES = {
     'year': dict(opts={'type': 'year'}, valid=['2001', '1999', 2020], invalid=['abcd', '20x1']),
     'string': dict(opts={'type': 'string', 'constraints': {'maxLength': 3}}, valid=['ab', 'abc', 'a'], invalid=['abcd', 'toolong']),
     'array': dict(opts={'type': 'array'}, valid=['[1,2]', '[]', [1]], invalid=['{"a":1}', '[1,']),
+    # set_type called WITHOUT a type on a field whose declared type stays: the options given refine how its cells are read
+    'boolean-tokens': dict(declared={'type': 'boolean'}, opts={'trueValues': ['yes', 'Y'], 'falseValues': ['no']},
+                           valid=['yes', 'no', True, 'Y'], invalid=['true', '2']),
+    'number-bare-notype': dict(declared={'type': 'number'}, opts={'bareNumber': False}, valid=['$10.5', '20%', 3], invalid=['abc', 'x']),
+    'title-only': dict(declared={'type': 'integer'}, opts={'title': 'T', 'description': 'd'}, valid=['1', 7, '-3'], invalid=['x', '1.5']),
 }
 POLICIES = ['raise', 'drop', 'ignore', 'clear', 'custom4-keep', 'custom4-drop', 'custom5-keep', 'custom5-by-field', 'custom5-default']
 # validate() only: the three checked fields share a type but differ in constraints/options; the same lexical value is valid
@@ -79,7 +84,8 @@ def build(case, log):
             for f in ('f1', 'f2', 'f.'):
                 if isinstance(r[f], str):
                     r[f] = '#' + r[f]
-    declared = dict(t['opts'], format=t['opts'].get('format', 'default')) if via == 'validate' else {'type': 'any', 'format': 'default'}
+    full = dict(t.get('declared', {}), **t['opts'])
+    declared = dict(full, format=full.get('format', 'default')) if via == 'validate' else dict(t.get('declared', {'type': 'any'}), format='default')
     fields = [{'name': 'id', 'type': 'integer', 'format': 'default'}]
     for f in ('f1', 'f2', 'f.'):
         if tname in MIXED:
@@ -167,7 +173,8 @@ def model(case, rows, resname):
         fobj = {f: tableschema.Field(dict(MIXED[case['type']][f], name=f, format='default'), missing_values=mv) for f in ('f1', 'f2', 'f.')}
     else:
         t = TYPES[case['type']]
-        fd = dict(t['opts'], name='x', format=t['opts'].get('format', 'default'))
+        fd = dict(t.get('declared', {}), **t['opts'])
+        fd = dict(fd, name='x', format=fd.get('format', 'default'))
         fobj = {f: tableschema.Field(fd, missing_values=mv) for f in ('f1', 'f2', 'f.')}
     policy = case['policy']
     out, calls = [], []
@@ -288,7 +295,9 @@ def check(case):
         for rname in ('other', 't'):
             rd = out.desc['resources'][out.names().index(rname)]
             for f in rd['schema']['fields']:
-                want = TYPES[case['type']]['opts']['type'] if (f['name'] in chk and rname in sel) else ('any' if f['name'] in ('f1', 'f2', 'f.') else None)
+                tt = TYPES[case['type']]
+                base = tt.get('declared', {'type': 'any'})['type']
+                want = tt['opts'].get('type', base) if (f['name'] in chk and rname in sel) else (base if f['name'] in ('f1', 'f2', 'f.') else None)
                 if want and f['type'] != want:
                     viol.append(('schema/%s' % case['via'], '%s: field %s of %s declared %s, expected %s' % (label, f['name'], rname, f['type'], want)))
     nontrivial = case['type'] in MIXED or any('i' in p for p in case['pattern'])
@@ -313,7 +322,7 @@ def cases(tier):
             if len(pat) <= 2:
                 for pol in POLICIES:
                     out.append({'via': 'validate', 'type': tname, 'policy': pol, 'pattern': pat})
-        if tier == 'quick' and tname in ('date-default', 'number-bare', 'year', 'array'):
+        if tier == 'quick' and tname in ('date-default', 'number-bare', 'year', 'array', 'boolean-tokens', 'number-bare-notype', 'title-only'):
             continue              # quick: the option axes on the five main types
         # the other axes around the base configuration, on <=2-row tables
         for pat in [p for p in pats if len(p) <= 2]:
